@@ -309,8 +309,12 @@ def run(ctx):
         want = ast.Compare(ast.Eq(), ast.Identifier(name, tuple(ns)), ast.Integer("1"))
         return None if nd == want else f"parsed as {nd!r}"
 
+    # duration seconds with MORE than six fraction digits whose value is exact in microseconds (judged only: the py_val model covers up to six digits)
+    JUDGE_ONLY = [("duration'PT0.5000000S'", "Duration", "PT0.5000000S", "ok duration 500000"), ("duration'PT1.50000000S'", "Duration", "PT1.50000000S", "ok duration 1500000"),
+                  ("duration'-PT0.2500000000S'", "Duration", "-PT0.2500000000S", "ok duration -250000"), ("duration'P1DT0.0000010S'", "Duration", "P1DT0.0000010S", "ok duration 86400000001"),
+                  ("duration'PT59.999999000S'", "Duration", "PT59.999999000S", "ok duration 59999999"), ("duration'PT0.1250000000000S'", "Duration", "PT0.1250000000000S", "ok duration 125000")]
     # the property itself on the real code, on every run
-    bad_sp = [(s, kind, w) for s, kind, val, mean in sp for w in [judge_spelling(s, kind, val, mean)] if w]
+    bad_sp = [(s, kind, w) for s, kind, val, mean in sp + JUDGE_ONLY for w in [judge_spelling(s, kind, val, mean)] if w]
     bad_id = [(i, w) for i in IDENTS for w in [judge_ident(i)] if w]
     ctx.evaluations += len(sp) + len(IDENTS)
     kf_year = [b for b in bad_sp if year_out_of_range(b[0], b[1])]
@@ -323,7 +327,7 @@ def run(ctx):
 
     def search(ctx):
         found = []
-        for s, kind, val, mean in sp:
+        for s, kind, val, mean in sp + JUDGE_ONLY:
             for c in ["{}"] + CONTEXTS[:3]:
                 txt = c.replace("{}", s)
                 if c == "{}":
